@@ -153,7 +153,7 @@ CONTRACTS += [
                        'result == "(" + timex1 + "," + timex2 + ",P" + str(ordinal_of(end) - ordinal_of(begin)) + "D)"')]),
     # ------------------------------------------------------------------ N units ago / from now (C08)
     Contract('dt.get_date_result.days_weeks', AL + 'get_date_result', ['C08'],
-             params=dict(unit_str=Str(), num=Int(1, 5000), reference=DateTime(1950, 2090), is_future=Bool(), mode=Const(0)),
+             params=dict(unit_str=Str(), num=Int(1, 5000), reference=DateTime(1950, 2090), is_future=Bool(), mode=Expr('repo_const("' + DT + 'utilities.py::AgoLaterMode", "DATE")')),
              requires=['unit_str == "D" or unit_str == "W"'],
              ensures=[('reference-plus-or-minus-N-days-or-7N-days',
                        'result.success and result.future_value == result.past_value and '
@@ -162,7 +162,7 @@ CONTRACTS += [
                       ('timex-is-that-date',
                        'result.timex == date_str(result.future_value.year, result.future_value.month, result.future_value.day)')]),
     Contract('dt.get_date_result.clock_units', AL + 'get_date_result', ['C08'],
-             params=dict(unit_str=Str(), num=Int(1, 5000), reference=DateTime(1950, 2090), is_future=Bool(), mode=Const(1)),
+             params=dict(unit_str=Str(), num=Int(1, 5000), reference=DateTime(1950, 2090), is_future=Bool(), mode=Expr('repo_const("' + DT + 'utilities.py::AgoLaterMode", "DATETIME")')),
              requires=['unit_str == "H" or unit_str == "M" or unit_str == "S"'],
              ensures=[('reference-plus-or-minus-N-units',
                        'result.success and result.future_value == result.past_value and '
